@@ -2,7 +2,7 @@ from . import COMMON_TB, NOTE
 
 PROP = {
     "modules": ["Proofs.C08"],
-    "streams": [{"name": "eparse"}, {"name": "render"}],
+    "streams": [{"name": "eparse"}, {"name": "render"}, {"name": "exprs"}],
     "rule": "eparse: exhaustive token soups of length<=3/4 over 23 lexemes, grammar-generated expressions and statements "
             "with random spacing, mutants and random soups; render: harvested test templates and grammar-generated templates "
             "with generated environments, through ParseTemplateLocation+Render; non-trivial = accepted / non-empty output",
